@@ -2,7 +2,7 @@
    R <entity code points>|<int outcome: "N" or decimal integer>|<name outcome: "N" or decimal integer>
        -> "OK <code points>" | "RAISE <exn>"
    P <counts>|<real path: apo,b,i triples separated by ';'>
-       -> "LEN <model len> VALID <0/1> A <score of final state, tie-breaking a> B <.., b> MAXNEW <max generated per step>"  | "RAISE <exn>" *)
+       -> "LEN <model len> VALID <0/1> A <score of final state, tie-breaking a> B <.., b> MAXNEW <max generated per step> WORK <generated per step, tie-breaking a>"  | "RAISE <exn>" *)
 open C01_model
 let rec pos_of_int i = if i = 1 then XH else if i land 1 = 1 then XI (pos_of_int (i lsr 1)) else XO (pos_of_int (i lsr 1))
 let n_of_int i = if i = 0 then N0 else Npos (pos_of_int i)
@@ -52,7 +52,8 @@ let () =
           let last l = List.fold_left (fun _ x -> Some x) None l in
           let sc l = match last l with Some s -> int_of_nat (score s) | None -> 0 in
           let maxnew = List.fold_left (fun m w -> max m (int_of_nat w)) 0 wa in
-          Printf.printf "LEN %d VALID %d A %d B %d MAXNEW %d\n" (List.length pa) (if valid init_st counts real then 1 else 0) (sc pa) (sc pb) maxnew
+          Printf.printf "LEN %d VALID %d A %d B %d MAXNEW %d WORK %s\n" (List.length pa) (if valid init_st counts real then 1 else 0) (sc pa) (sc pb) maxnew
+            (String.concat "," (List.map (fun w -> string_of_int (int_of_nat w)) wa))
         | Raise x, _ | _, Raise x -> print_string ("RAISE " ^ exn_name x ^ "\n"))
      | _ -> print_string "ERR\n")
   done with End_of_file -> ()
